@@ -13,6 +13,10 @@ Open Scope R_scope.
 
 Ltac open_tr := intros; destruct_tuples; autounfold with smgen in *; unfold SE3, SE2, t2r3, t2r2, lastrow4, lastrow3; sm_simpl.
 Ltac conjs := intros; repeat match goal with |- _ /\ _ => split end.
+(* one boolean atom of a path condition (ltb or leb, true or false -- whichever comparison the code uses) from an order fact *)
+Ltac pc_atom := lazymatch goal with
+  | |- Rltb _ _ = true => apply Rltb_true | |- Rltb _ _ = false => apply Rltb_false
+  | |- Rleb _ _ = true => apply Rleb_true | |- Rleb _ _ = false => apply Rleb_false end; lra.
 
 (* ---------- Rodrigues family: trace = rodrigues_cs (v/|v|) c s, hence in SO(3) ---------- *)
 Ltac rod_core :=
@@ -61,7 +65,7 @@ Lemma C01_axis_domain_on_path : forall th v, 1/1000 <= sqrt (normsq3 Rops v) ->
   pc_tr_SO3_EulerVec Rops v /\ pc_tr_SE3_EulerVec Rops v /\ pc_tr_rodrigues Rops v /\ pc_tr_trexp3 Rops v /\ pc_tr_SO3_Exp Rops v.
 Proof.
   intros th v H. destruct_tuples. autounfold with smgen smlin in *. sm_simpl.
-  repeat split; first [ apply Rltb_true | apply Rltb_false ]; lra.
+  repeat match goal with |- _ /\ _ => split end; pc_atom.
 Qed.
 Example C01_axis_domain_nonvacuous : 1/1000 <= sqrt (normsq3 Rops (2, 0, 0)).
 Proof. lin_simpl. replace (2*2+0*0+0*0) with (2*2) by ring. rewrite sqrt_square; lra. Qed.
@@ -109,7 +113,7 @@ Proof.
   autounfold with smgen. sm_simpl.
   repeat match goal with |- context [sqrt ?X] => let v := fresh in
      assert (v : sqrt X = 1) by (replace X with 1 by ring; apply sqrt_1); rewrite v; clear v end.
-  repeat split; apply Rltb_true; lra.
+  repeat match goal with |- _ /\ _ => split end; pc_atom.
 Qed.
 
 (* 2-D normalisation trnorm2 (added to /repo by fix 7bb8ca6; SO2.norm() / SE2.norm() call it): the unit vector along the
@@ -130,7 +134,7 @@ Example C01_trnorm2_path_nonvacuous : pc_tr_trnorm2_so2 Rops ((1, 0), (0, 2)).
 Proof.
   autounfold with smgen. sm_simpl.
   assert (v : sqrt (0 * 0 + 2 * 2) = 2) by (replace (0*0+2*2) with (2*2) by ring; apply sqrt_square; lra).
-  rewrite v. apply Rltb_true. lra.
+  rewrite v. pc_atom.
 Qed.
 
 Theorem C01_frame_constructors : forall (o a : V3 R) (X3 : M33 R) (X4 : M44 R),
@@ -178,7 +182,8 @@ Ltac unit_tr := open_tr; pc_facts; cs_gen; sqrt_all; first [ unit_tr_main | unfo
 
 Lemma C01_unit : forall q, pc_tr_unit Rops q -> UnitQ (tr_unit Rops q).
 Proof. unit_tr. Qed.
-Lemma C01_UQ_ctor : forall s v q, (pc_tr_UQ_sv Rops s v -> UnitQ (tr_UQ_sv Rops s v)) /\ (pc_tr_UQ_list Rops q -> UnitQ (tr_UQ_list Rops q)).
+Lemma C01_UQ_ctor : forall s v q, (pc_tr_UQ_sv Rops s v -> UnitQ (tr_UQ_sv Rops s v)) /\ (pc_tr_UQ_list Rops q -> UnitQ (tr_UQ_list Rops q)) /\
+  (pc_tr_UQ_vec Rops q -> UnitQ (tr_UQ_vec Rops q)).   (* ndarray form: normalised since fix d0fc1b2 *)
 Proof. conjs; unit_tr. Qed.
 Lemma C01_UQ_Rxyz : forall a,
   (pc_tr_UQ_Rx_rad Rops a -> UnitQ (tr_UQ_Rx_rad Rops a)) /\ (pc_tr_UQ_Rx_deg Rops a -> UnitQ (tr_UQ_Rx_deg Rops a)) /\
@@ -191,7 +196,7 @@ Lemma C01_UQ_Rxyz_total : forall a, pc_tr_UQ_Rx_rad Rops a /\ pc_tr_UQ_Rx_deg Ro
 Proof.
   intros a. autounfold with smgen. sm_simpl.
   repeat match goal with |- context [sqrt (cos ?t * cos ?t + sin ?t * sin ?t)] => rewrite (cs_unit t), sqrt_1 end.
-  repeat split; apply Rltb_false; lra.
+  repeat match goal with |- _ /\ _ => split end; pc_atom.
 Qed.
 Lemma C01_UQ_EulerVec : forall w, pc_tr_UQ_EulerVec Rops w -> UnitQ (tr_UQ_EulerVec Rops w).
 Proof. open_tr. pc_facts. cs_gen. sqrt_all. sqrt_sq_one. unit_poly. Qed.
@@ -200,7 +205,8 @@ Theorem C01_unit_quaternion_constructors : forall (a s : R) (v w : V3 R) (q : V4
   UnitQ (tr_UQ_Rx_rad Rops a) /\ UnitQ (tr_UQ_Rx_deg Rops a) /\ UnitQ (tr_UQ_Ry_rad Rops a) /\ UnitQ (tr_UQ_Ry_deg Rops a) /\
   UnitQ (tr_UQ_Rz_rad Rops a) /\ UnitQ (tr_UQ_Rz_deg Rops a) /\
   (pc_tr_unit Rops q -> UnitQ (tr_unit Rops q)) /\ (pc_tr_UQ_sv Rops s v -> UnitQ (tr_UQ_sv Rops s v)) /\
-  (pc_tr_UQ_list Rops q -> UnitQ (tr_UQ_list Rops q)) /\ (pc_tr_UQ_EulerVec Rops w -> UnitQ (tr_UQ_EulerVec Rops w)).
+  (pc_tr_UQ_list Rops q -> UnitQ (tr_UQ_list Rops q)) /\ (pc_tr_UQ_vec Rops q -> UnitQ (tr_UQ_vec Rops q)) /\
+  (pc_tr_UQ_EulerVec Rops w -> UnitQ (tr_UQ_EulerVec Rops w)).
 Proof.
   intros. pose proof (C01_UQ_Rxyz a). pose proof (C01_UQ_Rxyz_total a). pose proof (C01_unit q). pose proof (C01_UQ_ctor s v q).
   pose proof (C01_UQ_EulerVec w). tauto.
@@ -212,7 +218,7 @@ Proof.
   autounfold with smgen. sm_simpl.
   repeat match goal with |- context [sqrt ?X] => let v := fresh in
      assert (v : sqrt X = 5) by (replace X with (5*5) by ring; apply sqrt_square; lra); rewrite v; clear v end.
-  split; apply Rltb_false; lra.
+  repeat match goal with |- _ /\ _ => split end; pc_atom.
 Qed.
 
 (* ---------- UnitQuaternion.AngVec: (cos(th/2), sin(th/2) v/|v|) -- the axis is normalised (repaired in /repo by
@@ -226,7 +232,7 @@ Lemma C01_UQ_AngVec_domain_on_path : forall th v, 1/1000 <= sqrt (normsq3 Rops v
   pc_tr_UQ_AngVec_rad Rops th v /\ pc_tr_UQ_AngVec_deg Rops th v.
 Proof.
   intros th v H. destruct_tuples. autounfold with smgen smlin in *. sm_simpl.
-  repeat split; first [ apply Rltb_true | apply Rltb_false ]; lra.
+  repeat match goal with |- _ /\ _ => split end; pc_atom.
 Qed.
 (* full strength: every axis of the property's domain (any length >= 1e-3), every angle, both units; zero axis -> identity *)
 Theorem C01_UQ_AngVec_closed : forall th v,
